@@ -16,6 +16,7 @@
 # along with this program.  If not, see <http://www.gnu.org/licenses/>.
 """Load custom variables for template processor."""
 
+import ast
 from ast import literal_eval
 from typing import Any, Dict, List, Optional, Set, Union, TYPE_CHECKING
 
@@ -48,7 +49,9 @@ def get_template_vars_from_db(run_dir: 'Path') -> dict:
     WorkflowDatabaseManager.check_db_compatibility(pub_db_file)
     with CylcWorkflowDAO(pub_db_file, is_public=True) as dao:
         dao.select_workflow_template_vars(
-            lambda _, row: template_vars.__setitem__(row[0], eval_var(row[1]))
+            lambda _, row: template_vars.__setitem__(
+                row[0], eval_stored_var(row[1])
+            )
         )
     return template_vars
 
@@ -83,6 +86,55 @@ def eval_var(var):
             f'Invalid template variable: {var}'
             '\n(values must be valid Python literals)'
         ) from None
+
+
+class _ReprNames(ast.NodeTransformer):
+    """Replace the names ``repr()`` uses for values which have no literal
+    form (e.g. ``repr(float('inf')) == 'inf'``) with the values themselves.
+    """
+
+    NAMES = {
+        'inf': float('inf'),
+        'nan': float('nan'),
+        'infj': complex(0, float('inf')),
+        'nanj': complex(0, float('nan')),
+        'Ellipsis': Ellipsis,
+    }
+
+    def visit_Name(self, node):
+        if node.id in self.NAMES:
+            return ast.copy_location(ast.Constant(self.NAMES[node.id]), node)
+        return node
+
+
+def eval_stored_var(var: str):
+    """Evaluate a template variable stored in the workflow database.
+
+    Template variables are stored as their ``repr()``. A few values which are
+    accepted as literals (e.g. ``1e999``, ``...``) do not have a ``repr()``
+    which is itself a literal, so ``eval_var`` alone cannot restore them.
+
+    Examples:
+        >>> eval_stored_var("[1, 'a']")
+        [1, 'a']
+        >>> eval_stored_var('[inf, -inf]')
+        [inf, -inf]
+        >>> eval_stored_var('(2-infj)')
+        (2-infj)
+        >>> eval_stored_var('Ellipsis')
+        Ellipsis
+        >>> eval_stored_var('string')
+        Traceback (most recent call last):
+        cylc.flow.exceptions.InputError: Invalid template variable: string
+        (note string values must be quoted)
+
+    """
+    try:
+        tree = ast.parse(var.lstrip(' \t'), mode='eval')
+        return literal_eval(_ReprNames().visit(tree))
+    except (ValueError, SyntaxError):
+        # raise the standard error message
+        return eval_var(var)
 
 
 def parse_string_list(stringlist: str) -> list[str]:
